@@ -2378,3 +2378,39 @@ mod tests {
         assert!(HashTable::<u32>::with_capacity(1).allocation_size() > core::mem::size_of::<u32>());
     }
 }
+
+#[cfg(feature = "verif-hooks")]
+impl<T, A: Allocator> HashTable<T, A> {
+    /// Verification hook: read-only dump of the underlying raw table.
+    pub fn verif_dump(&self) -> crate::raw::verif::TableDump {
+        self.raw.verif_dump()
+    }
+
+    /// Verification hook: the element stored in bucket `index`, if that bucket is full.
+    pub fn verif_bucket(&self, index: usize) -> Option<&T> {
+        self.raw.verif_bucket(index)
+    }
+}
+
+#[cfg(all(feature = "verif-hooks", feature = "rayon"))]
+impl<T, A: Allocator> HashTable<T, A> {
+    /// Verification hook: see `RawTable::verif_split_leaves`.
+    pub fn verif_split_leaves(
+        &self,
+        decide: &mut dyn FnMut(&[bool]) -> bool,
+    ) -> ::alloc::vec::Vec<::alloc::vec::Vec<usize>> {
+        self.raw.verif_split_leaves(decide)
+    }
+}
+
+#[cfg(all(feature = "verif-hooks", feature = "rayon"))]
+impl<T: Send, A: Allocator> HashTable<T, A> {
+    /// Verification hook: see `RawTable::verif_par_drain_tree`.
+    pub fn verif_par_drain_tree(
+        &mut self,
+        decide: &mut dyn FnMut(&[bool]) -> crate::verif::DrainNode,
+        sink: &mut dyn FnMut(T),
+    ) {
+        self.raw.verif_par_drain_tree(decide, sink)
+    }
+}
